@@ -221,6 +221,10 @@ func (qr *queryRequest) executeCallback(cb func(QueryRequest)) {
 
 		switch e := v.(type) {
 		case *Error:
+			if e == nil {
+				// A nil *Error is not an error to respond with
+				e = InternalError(errors.New("panic with nil *Error"))
+			}
 			if !qr.replied {
 				qr.error(e)
 				// Return without logging, as panicing with an *Error is considered
